@@ -196,6 +196,18 @@ CHECKS = {
              'injectivity on 5122 values. Oracle: relay indexes, per-relay attributes, lookups by identity and nickname, '
              'guards/authorities, object identity across documents.',
         note='Trusted: refs/consensus.py. Known finding: authorities is keyed by nickname.'),
+    'C14': dict(
+        engine=E1, design='DESIGN.md section 4 / C14',
+        technique='full product enumeration of service requests through the real ephemeral-onion creation code against a '
+                  'simulated Tor that decodes ADD_ONION with an independent argument parser',
+        text='version {2,3} x key {none, discard, bare blob, prefixed blob, blob prefixed for the other version, blob with CR / LF / '
+             'CRLF plus an injected command} x detach x single-hop x auth {none, basic with 0/1/3 clients with and without tokens} x '
+             'port lists of 1..2 (quick) / 1..3 (thorough) entries in the four accepted forms, five rejected port forms, '
+             'EphemeralOnionService.create, EphemeralAuthenticatedOnionService.create and Tor.create_onion_service, plus a Tor '
+             'that echoes a key although DiscardPK was sent. Oracle on the decoded ADD_ONION (key specifier, Port= list in order, '
+             'exact flag set, ClientAuth entries), on hostname / private_key / clients of the service before and after '
+             'completion, and on DEL_ONION.',
+        note='Trusted: refs/addonion.py, mc/simtor.py. BasicAuth is explored for version 2 with a real RSA key only.'),
 }
 
 PENDING = {}
